@@ -54,6 +54,49 @@ def _summary(edit):
     return out
 
 
+def _mixed_keys(doc):
+    """Does some mapping in the document have keys of different types (only YAML / Python dicts can)?"""
+    if isinstance(doc, dict):
+        return len({type(k) for k in doc}) > 1 or any(_mixed_keys(v) for v in doc.values())
+    if isinstance(doc, list):
+        return any(_mixed_keys(v) for v in doc)
+    return False
+
+
+def _child_order(tree):
+    import graphtage
+    out = []
+    for n in tree.dfs():
+        if isinstance(n, graphtage.MappingNode):
+            out.append(tuple(repr(k.key) for k in n.children()))
+    return out
+
+
+def _common_keys_self_paired(e, opt):
+    """Under the 'auto' and 'none' strategies: is every key present in both mappings paired with itself, at every level?"""
+    f = []
+    try:
+        walk.check_options  # noqa
+        walk.walk(e, e.from_node, e.to_node, opt, f)
+    except Exception:
+        return False
+    return not any(x['class'].startswith('c10-') for x in f)
+
+
+def _known_mixed_key_order(a, b, a2, b2, opt, e0, e):
+    """The listed finding mixed-type-key-order: LeafNode.__lt__ is not transitive across key types, so the 'canonical' child
+    order of a DictNode depends on the written order; the matcher then breaks ties between UNMATCHED keys differently.  Only
+    filed under it when that is all that happened: mixed key types, different child orders, and (where the strategy
+    promises it) every common key still paired with itself."""
+    if not (_mixed_keys(a) or _mixed_keys(b)):
+        return False
+    if _child_order(gt.build(a, opt)) == _child_order(gt.build(a2, opt)) and _child_order(gt.build(b, opt)) == _child_order(gt.build(b2, opt)):
+        return False
+    if opt['allow_key_edits'] and not opt['auto_match_keys']:
+        return True     # 'match': no promise about common keys
+    return _common_keys_self_paired(e0, opt) and _common_keys_self_paired(e, opt)
+
+
 def _perm_job(job):
     a, b, opt = job
     fails = []
@@ -67,12 +110,14 @@ def _perm_job(job):
                 walk.refine(e)
                 c = e.bounds().upper_bound
                 if c != c0:
+                    known = _known_mixed_key_order(a, b, a2, b2, opt, e0, e)
                     fails.append({'what': f"cost {c0} for {a!r} -> {b!r} but {c} after reordering keys: {a2!r} -> {b2!r}",
-                                  'class': 'c08-cost-depends-on-key-order'})
+                                  'class': 'c08-cost-depends-on-key-order' + (':mixed-type-key-order' if known else '')})
                     break
                 if _summary(e) != s0:
+                    known = _known_mixed_key_order(a, b, a2, b2, opt, e0, e)
                     fails.append({'what': f"paired/removed/inserted items change when keys are reordered: {a!r} -> {b!r} vs {a2!r} -> {b2!r}",
-                                  'class': 'c08-pairing-depends-on-key-order'})
+                                  'class': 'c08-pairing-depends-on-key-order' + (':mixed-type-key-order' if known else '')})
                     break
             if fails:
                 break
@@ -144,7 +189,12 @@ def bounded(tier, seed, repo_root):
     # vs order of keys), numeric keys with a shared prefix, and cost ties between unmatched keys
     tricky = [{"x": 1, "x-y": 1}, {"x_y": 1}, {"x": 1, "x-y": 1, "x y": 1}, {"x.z": 1, "x/": 1}, {"line": 2, "line 2": 2},
               {"line_2": 2, "line3": 2}, {"addr": "s", "addr2": "s"}, {"addrx": "s", "add": "s"}, {1: "v", 10: "v"}, {2: "v", 11: "v"},
-              {"a": 1, "a0": 1, "a-": 1}, {"b": 1, "b0": 1}]
+              {"a": 1, "a0": 1, "a-": 1}, {"b": 1, "b0": 1},
+              # keys of mixed types (YAML / Python dicts): LeafNode.__lt__ falls back to comparing text and is not transitive there
+              {2: "hello world, hello", 10: "goodbye moon, goodbye", "1x": "alpha beta gamma", "1y": "delta epsilon"},
+              {2: "goodbye moon, goodbye", 10: "hello world, hello", "1x": "delta epsilon", "1y": "alpha beta gamma"},
+              {9: "n", 10: "t", "5": "aaaaaaaaaaaa", "6": "zzzzzzzzzzzz"}, {9: "n", 10: "t", "5": "zzzzzzzzzzzz", "6": "aaaaaaaaaaaa"},
+              {True: 1, 5: "five five five", "6": "six six six"}, {True: 2, 5: "six six six", "6": "five five five"}]
     pj = [(a, b, o) for a in tricky for b in tricky for o in gt.OPTION_COMBOS[:6:2] if a is not b]
     for _ in range(700 if tier == 'quick' else 7000):
         pj.append((rnd.choice(maps), rnd.choice(maps), gt.OPTION_COMBOS[rnd.randrange(9)]))
